@@ -20,6 +20,7 @@ import yatiml
 from vlib import docs as D
 from vlib import harness as H
 from vlib import modelgen as G
+from vlib import models as M
 from vlib import plain
 from vlib import scalars as S
 from vlib import values as V
@@ -291,6 +292,42 @@ def shard(ctx):
             if share:
                 ctx.count('values_from_sharing_generators')
             run_value(ctx, spec, v, t)
+    # classes written as one scalar that their sweetener sets with
+    # Node.set_value(): every kind of scalar value must come out as itself,
+    # untagged, wherever the object stands
+    pool = [None, True, False, 0, -7, 2 ** 70, 1.5, 1e22, 1e-7, -0.0,
+            float('inf'), float('-inf'), float('nan'), '', 'x', 'null',
+            'true', '1.5', '1e5', 'None', '~', 'a: b', ' lead', '2001-12-14']
+    for i, val in enumerate(pool):
+        if not ctx.mine(i):
+            continue
+        for kind in ('userstring', 'str', 'enum'):
+            c = {'name': 'SV', 'kind': kind,
+                 'sweeten': [['set_scalar', M.enc(val)]]}
+            if kind == 'enum':
+                c['members'] = ['aa', 'bb']
+            hold = {'name': 'Hold', 'kind': 'plain', 'params': [
+                {'name': 'h_id', 'type': 'int'},
+                {'name': 'h_sv', 'type': ['cls', 'SV']},
+                {'name': 'h_l', 'type': ['list', ['cls', 'SV']]},
+                {'name': 'h_d', 'type': ['dict', 'str', ['cls', 'SV']]}]}
+            spec = {'classes': [c, hold], 'doc_type': ['cls', 'Hold']}
+            try:
+                m = H.model_of(spec)
+            except Exception as e:
+                ctx.note('set_value family: %r' % (e,))
+                continue
+            spec = H.clean_spec(spec)
+
+            def sv():
+                return m.classes['SV']['aa'] if kind == 'enum' \
+                    else m.classes['SV']('txt')
+            ctx.count('set_value_family_values')
+            run_value(ctx, spec, sv(), ['cls', 'SV'])
+            run_value(ctx, spec, [sv(), sv()], ['list', ['cls', 'SV']])
+            run_value(ctx, spec, m.classes['Hold'](
+                h_id=1, h_sv=sv(), h_l=[sv()], h_d={'k': sv()}),
+                ['cls', 'Hold'])
     # plain containers incl. OrderedDict
     spec0 = {'classes': [], 'doc_type': 'any'}
     for _ in range(ctx.budget(10000, 130000)):
